@@ -33,6 +33,9 @@ def _st(p):
     return st
 
 
+MUTATORS = r"(^|::)(remove_file|remove_dir|remove_dir_all|rename|write|set_permissions|set_len|create|create_new|create_dir|create_dir_all|hard_link|symlink|truncate|set_times|set_modified)$"
+
+
 def add_transform_obligations(rep, ctx):
     """the temp-file obligations of the transform machinery; also part of C01 (colliding temp copies mix up file contents)"""
     return run(rep, ctx, True)
@@ -52,10 +55,14 @@ def run(rep_in=None, ctx_in=None, only_transform=False):
         outside=["what the user's transform program does", "atime semantics", "sled's own files", "the bodies of log_script's threads"])
     ctx = ctx_in or oblig.Ctx()
     prog = ctx.lib
+    if rep_in is None:
+        oblig.install_battery(rep, ctx, ["c07_battery"])
 
     def finish(o, scenario=None):
         if o.verdict == "violated" and scenario:
             replay(o, ctx, scenario)
+            if o.verdict == "inconclusive":
+                o.verdict = "violated"       # let the snapshot battery (install_battery) try
         rep.add(o)
 
     # ---------------------------------------------------------------- O1 make_args x Drop
@@ -181,6 +188,10 @@ def run(rep_in=None, ctx_in=None, only_transform=False):
             other = called(p, r"hard_link|symlink|rename|reflink")
             st = _st(p)
             ok = len(cp) == 1 and not other and "src" in summaries.canon(eng, st, cp[0].args[0]) and "target" in summaries.canon(eng, st, cp[0].args[1])
+            # on every path - also when the copy failed - the scanned file itself is only ever read
+            for ev in called(p, MUTATORS):
+                if any("src" in summaries.canon(eng, st, a) for a in (ev.args or ())):
+                    ok = False
             return z3.BoolVal(bool(ok))
         finish(oblig.check_paths(eng, ps, "the private $IN file is an independent copy (fs::copy), not a link to the scanned file", prop,
                                  oblig.fnames(eng), key="transform:copy"), "in-place-copy")
@@ -232,6 +243,27 @@ def run(rep_in=None, ctx_in=None, only_transform=False):
                                  oblig.fnames(eng), key="run_dedupe:dry-run", allow=("return", "panic", "diverge", "bound")), "dry-run")
     except Inconclusive as ex:
         o = Obligation("dry run", "E2 mirsym/z3")
+        o.verdict, o.detail = "inconclusive", str(ex)
+        rep.add(o)
+
+    # ---------------------------------------------------------------- O3b main(): no file-system mutation outside run_group / run_dedupe
+    try:
+        binp = ctx.bin
+        import optsum as _opt
+        engm = oblig.engine(binp, unroll=1, inline=None, extra=dict(_opt.SUMMARIES))
+        mn = binp.find(r"^main$")
+        ps = engm.run(mn)
+
+        def mprop(p):
+            rd = called(p, r"(^|::)run_dedupe$|(^|::)run_group$")
+            if not rd:
+                return None
+            bad = called(p, MUTATORS)
+            return z3.BoolVal(not bad)
+        finish(oblig.check_paths(engm, ps, "main(): the command dispatch itself creates or changes nothing in the file system (a --dry-run is decided inside run_dedupe)",
+                                 mprop, oblig.fnames(engm), key="main:no-mutation", allow=("return", "panic", "diverge", "bound")), "dry-run")
+    except Inconclusive as ex:
+        o = Obligation("main dispatch", "E2 mirsym/z3")
         o.verdict, o.detail = "inconclusive", str(ex)
         rep.add(o)
 
